@@ -264,7 +264,60 @@ def fullrun_shard(ctx, si, payload):
             ctx.violation("fullrun-geo", f"altitude {alt} km, cone {cone} deg: a full diffuse run with both channels ({payload['N']} thrown, seed {seed}) reports RMCINTGO = {rgo!r} and OMCINTGO = {ogo!r} km^2 sr; the aperture of the configured region is {Aref!r} (ratio {rgo / Aref:.3f}, Monte Carlo tolerance {payload['tol']})", wit)
 
 
+def faces(ctx):
+    """The closed cube's u4 faces. u4 = 0 is the horizon: integrand x Jacobian diverges to +inf there, so
+    a kept event's weight must be positive (finite or +inf); the code gives what 1 / cos(theta_NV) rounds
+    to (open finding, shared with C03). u4 = 1 on an annulus that reaches the sub-detector point: the
+    weight is cos(TrN) / cos(TrV) x mcnorm (cos(theta_NV) = 1), computed here from u alone."""
+    import math
+
+    from nuspacesim.simulation.geometry.region_geometry import RegionGeom
+
+    for alt in (33.0, 10.0, 600.0, 525.0, 1.0, 4.0):
+        cfg = make_cfg(alt, 0.5, 3.0, 360.0)
+        g = RegionGeom(cfg)
+        for u4 in (0.0, 2.0**-53):
+            for u1 in (0.5, 0.0):
+                u = np.array([[u1], [0.5], [0.5], [u4]])
+                g.throw(u)
+                ctx.count("faces")
+                if not bool(g.event_mask[0]):
+                    continue
+                with np.errstate(all="ignore"):
+                    w = g.mcintegral(np.ones(1), -1.0, np.ones(1), 0.5, 1.0, 1.0)[1]
+                cnv = float(np.asarray(g.costhetaNSubV)[0])
+                if not (w > 0):
+                    key = "diffuse:horizon-face-weight" if not (cnv > 0) else "identity"
+                    ctx.violation(key, f"altitude {alt} km: the kept event at u = ({u1}, 0.5, 0.5, {u4!r}) (the horizon; integrand x Jacobian -> +inf) has weight x normalisation {w!r} (cos(theta_NV) = {cnv!r})", {"altitude": alt, "u": [u1, 0.5, 0.5, u4]})
+    # the nadir end of a whole-disc annulus
+    for alt in list(range(1, 201, 1 if ctx.thorough() else 5)) + [3, 8, 13, 23, 33, 38]:
+        cone = 80.0
+        cfg = make_cfg(float(alt), 1 - 1e-9, cone, 360.0)
+        g = RegionGeom(cfg)
+        for u4 in (1.0, float(np.nextafter(1.0, 0.0))):
+            u1, u2 = 0.9, 0.6
+            g.throw(np.array([[u1], [u2], [0.5], [u4]]))
+            ctx.count("faces")
+            with np.errstate(all="ignore"):
+                nk = int(np.sum(g.event_mask))
+                w = g.mcintegral(np.ones(nk), -1.0, np.ones(nk), 0.5, 1.0, 1.0)[1] if nk else 0.0
+            # at the nadir cos(theta_NV) = 1 and cos(TrN) = cos(TrV) up to the 1e-9 tilt: weight = mcnorm
+            sth = math.sin(math.radians(cone)) * math.sqrt(u1)
+            beta = math.degrees(math.asin(math.sqrt((1 - sth) * (1 + sth))))
+            # normalisation from the configuration alone: pi sin^2(cone) az (Lmax dL^2 - dL^3 / 3) / (2 (R + h))
+            R_ = G.R_ASTROPY
+            Lmax = G.tangent_length(R_, float(alt))
+            aH_ = G.horizon_nadir_angle(R_, float(alt))
+            dL = Lmax - G.los_length_at_nadir(R_, float(alt), aH_ - cfg.simulation.angle_from_limb)
+            norm = math.pi * math.sin(math.radians(cone)) ** 2 * 2 * math.pi * (Lmax * dL**2 - dL**3 / 3) / (2 * (R_ + float(alt)))
+            want = norm if 0 <= beta < 42 else 0.0
+            if not abs(w - want) <= 1e-5 * abs(want) + 1e-300:
+                ctx.violation("identity", f"altitude {alt} km, annulus reaching the sub-detector point: the event at u = ({u1}, {u2}, 0.5, {u4!r}) (nadir; emergence {beta:.2f} deg) has weight x normalisation {w!r}; integrand x Jacobian is {want!r}", {"altitude": alt, "u": [u1, u2, 0.5, u4], "whole_disc": True})
+
+
 def run(ctx):
+    faces(ctx)
+    ctx.require("faces")
     sd = 100 * ctx.seed
     fr = [(525.0, None, 3.0, 360.0, 11 + sd), (33.0, 0.5, 3.0, 360.0, 12 + sd)]
     if ctx.thorough():
